@@ -258,7 +258,11 @@ func c18Structured(c *Ctx) {
 		// be switched off by another field)
 		nPert, whats := r.PickInt(1, 1, 1, 2, 2, 3), []string{}
 		for ; nPert > 0; nPert-- {
-			switch r.Intn(14) {
+			switch r.Intn(15) {
+			case 14:
+				tp.Dims = [][]int64{{0, -1}, {3, 0, -7}, {0, 4, -2}, {-3, 0}, {0, 0, -1}}[r.Intn(5)]
+				tp.RawData, tp.FloatData, tp.Int32Data, tp.Int64Data, tp.DoubleData, tp.Uint64Data = nil, nil, nil, nil, nil, nil
+				what = "initializer without elements: a zero extent next to a negative one"
 			case 11:
 				tp.DataLocation = onnx.TensorProto_EXTERNAL
 				what = "initializer data_location EXTERNAL"
